@@ -247,9 +247,9 @@ func (w *walker) walkVersions(bucket string, prefix, delim string, max int) bool
 		for _, e := range lv.Entries {
 			switch e.XMLName.Local {
 			case "Version":
-				out = append(out, wEntry{K: fromBytes(e.Key), ID: e.VersionID, A: fmt.Sprintf("obj/%s/%s/%v", e.Size, e.ETag, e.IsLatest)})
+				out = append(out, wEntry{K: fromBytes(w.x.Conc.Unkey(e.Key)), ID: e.VersionID, A: fmt.Sprintf("obj/%s/%s/%v", e.Size, e.ETag, e.IsLatest)})
 			case "DeleteMarker":
-				out = append(out, wEntry{K: fromBytes(e.Key), ID: e.VersionID, A: fmt.Sprintf("dm/%v", e.IsLatest)})
+				out = append(out, wEntry{K: fromBytes(w.x.Conc.Unkey(e.Key)), ID: e.VersionID, A: fmt.Sprintf("dm/%v", e.IsLatest)})
 			}
 		}
 		return out
@@ -285,7 +285,7 @@ func (w *walker) walkVersions(bucket string, prefix, delim string, max int) bool
 		}
 		ev := wEvent{T: "page", Trunc: lv.IsTruncated, Ents: conv(lv)}
 		for _, p := range lv.CommonPrefixes {
-			ev.Prefixes = append(ev.Prefixes, fromBytes(p.Prefix))
+			ev.Prefixes = append(ev.Prefixes, fromBytes(w.x.Conc.Unkey(p.Prefix)))
 		}
 		w.emit(ev)
 		if !lv.IsTruncated {
@@ -370,10 +370,10 @@ func (w *walker) walkUploads(fin Op, bucket, prefix, delim string, max int) {
 		}
 		ev := wEvent{T: "page", Trunc: lu.IsTruncated}
 		for _, u := range lu.Uploads {
-			ev.Ents = append(ev.Ents, wEntry{K: fromBytes(u.Key), ID: u.UploadID, A: ""})
+			ev.Ents = append(ev.Ents, wEntry{K: fromBytes(w.x.Conc.Unkey(u.Key)), ID: u.UploadID, A: ""})
 		}
 		for _, p := range lu.CommonPrefixes {
-			ev.Prefixes = append(ev.Prefixes, fromBytes(p.Prefix))
+			ev.Prefixes = append(ev.Prefixes, fromBytes(w.x.Conc.Unkey(p.Prefix)))
 		}
 		w.emit(ev)
 		if !lu.IsTruncated {
